@@ -261,7 +261,7 @@ def run_shard(spec):
         else:
             case = gen.pipeline_case(rng, ['indel', 'indel', 'partial', 'noisy'], nq=14, mode='all', param_prob=0.0,
                                      ref_kw={'repeats': False})
-            judge_real(case, spec['workdir'], sh)
+            core.isolated(judge_real, sh, case, spec['workdir'])
     return sh
 
 
